@@ -4,7 +4,7 @@
     Run by ocaml/build.sh inside /verif/ocaml (coqc writes model.ml into the current directory). *)
 From Coq Require Extraction ExtrOcamlBasic.
 From Coq Require Import ZArith NArith List.
-From Morlock.Model Require Import Score Bits Attacks Move Position Zobrist Board Abs Search TT SearchBoard Fen Engine EngineSpec.
+From Morlock.Model Require Import Score Bits Attacks Move Position Zobrist Board Abs Search TT SearchBoard Fen Engine EngineSpec UciSeq.
 From Morlock.Spec Require Chess Game Minimax.
 Extraction Language OCaml.
 Extraction "model.ml"
@@ -34,4 +34,5 @@ Extraction "model.ml"
   Minimax.spec_mm Minimax.spec_qv Minimax.spec_material_int
   Fen.decode Fen.encode Fen.parse_move Fen.parse_square_str Fen.parse_piece Fen.atoi Fen.itoa Fen.fen_initial
   Engine.eng_reset Engine.eng_move Engine.eng_takeback Engine.eng_position Engine.cmd_position Engine.cmd_ucinewgame
-  EngineSpec.setup EngineSpec.smove_of_str EngineSpec.gstate_of_fen EngineSpec.wf_value.
+  EngineSpec.setup EngineSpec.smove_of_str EngineSpec.gstate_of_fen EngineSpec.wf_value
+  UciSeq.go_depth UciSeq.u_position UciSeq.iterate.
